@@ -87,17 +87,22 @@ def build(base, sep, doubled, fillers, b1, b2, final, tworows=False):
     return lines
 
 
+def sep_for(sep, line_index):
+    """sep is ':' / ';' or a longer string cycled over the lines (a stream that mixes both notations)"""
+    return sep[line_index % len(sep)]
+
+
 def simulate(lines, sep, offset_s, copies=1):
     """Model: exact transmission clock and displayed-cue state machine. -> (cues [(start, end)], error_expected, dontcare, states)"""
-    k = Fraction(1001, 1000) if sep == ":" else Fraction(1)
-    off = Fraction(offset_s) * 1000000
+    off = Fraction(str(offset_s)) * 1000000
     cues = []
     current = None
     loaded = False
     states = set()
     trans = 0
     dec = C.Decoder()
-    for t, words in lines:
+    for li, (t, words) in enumerate(lines):
+        k = Fraction(1001, 1000) if sep_for(sep, li) == ":" else Fraction(1)
         for idx, w in enumerate(words):
             now = (Fraction(t + idx, 30)) * k * 1000000 - off
             if now < 0:
@@ -139,8 +144,8 @@ def simulate(lines, sep, offset_s, copies=1):
 
 def doc_of(lines, sep):
     out = ["Scenarist_SCC V1.0", ""]
-    for t, words in lines:
-        out.append(tc(t, sep) + "\t" + " ".join(words))
+    for li, (t, words) in enumerate(lines):
+        out.append(tc(t, sep_for(sep, li)) + "\t" + " ".join(words))
         out.append("")
     return "\n".join(out)
 
@@ -166,7 +171,7 @@ def evaluate(case):
         got = None
     except Exception as e:  # noqa
         return [(f"C06/raises:{type(e).__name__}", {"err": str(e)[:200], "doc": doc})], states, trans, "raises"
-    klass = f"{'drop' if sep == ';' else 'nondrop'}/{'doubled' if doubled else 'single'}/offset{'0' if not offset else '+'}"
+    klass = f"{ {';': 'drop', ':': 'nondrop'}.get(sep, 'mixed') }/{'doubled' if doubled else 'single'}/offset{'0' if not offset else ('+' if offset == int(offset) else 'fractional')}"
     if err:
         if raised is None:
             v.append((f"C06/flash-cue-not-rejected/{final}", {"got": got, "want": "CaptionReadTimingError", "doc": doc}))
@@ -197,7 +202,7 @@ def evaluate(case):
 
 def offsets_for(base):
     t0 = (base[0] * 60 + base[1]) * 60 + base[2]
-    return sorted({0, 1, max(0, t0 - 1), t0 + 2})
+    return sorted({0, 1, max(0, t0 - 1), t0 + 2}) + [0.5]
 
 
 def reuse_items():
@@ -224,6 +229,11 @@ def shards(tier, seed):
         for sep in (":", ";"):
             for doubled in (False, True):
                 sh.append({"base": bi, "sep": sep, "doubled": doubled, "tier": tier})
+        # a stream that switches between the two timecode notations from line to line (only in the first minutes,
+        # where the 0.1 % difference between the notations cannot reorder lines that are seconds apart)
+        if BASES[bi][0] == 0 and BASES[bi][1] == 0:
+            sh.append({"base": bi, "sep": ":;", "doubled": bool(bi % 2), "tier": tier, "mixed": True})
+            sh.append({"base": bi, "sep": ";:;", "doubled": not bool(bi % 2), "tier": tier, "mixed": True})
     return sh
 
 
@@ -237,11 +247,17 @@ def run_shard(d):
     base = BASES[d["base"]]
     allstates = set()
     fill_sets = [(0, 0, 0), (1, 5, 12), (12, 0, 1), (5, 1, 0)] if d["tier"] == "quick" else list(itertools.product(FILLERS, repeat=3))[::3]
+    if d.get("mixed"):
+        fill_sets = fill_sets[:2]
     for offset in offsets_for(base):
-        for fillers in fill_sets:
-            for b1 in BOUNDARY:
-                for b2 in BOUNDARY:
-                    for final in FINAL:
+        for fillers in (fill_sets if offset == int(offset) else fill_sets[:1]):
+            # mixed notations: only shapes whose lines are seconds apart (the notations differ by 0.1 %, which would
+            # reorder lines that are a frame or two apart - not a well-formed stream)
+            bset = BOUNDARY if not d.get("mixed") else ["none", "inline"]
+            fset = FINAL if not d.get("mixed") else ["cleared", "never"]
+            for b1 in bset:
+                for b2 in bset:
+                    for final in fset:
                       for tworows in ((False, True) if fillers in fill_sets[:2] else (False,)):
                         case = (base, d["sep"], d["doubled"], fillers, b1, b2, final, offset, tworows)
                         v, states, trans, outcome = evaluate(case)
